@@ -800,6 +800,15 @@ func findSinkType(params *filterParams, parent ast.Node, kv *ast.KeyValueExpr, e
 			}
 			return typ.Elem()
 		case *types.Struct:
+			if kv == nil {
+				// A positional literal T{a, b}: the i-th element initializes the i-th field.
+				for i, elt := range parent.Elts {
+					if astutil.Unparen(elt) == e && i < typ.NumFields() {
+						return typ.Field(i).Type()
+					}
+				}
+				break
+			}
 			fieldName, ok := kv.Key.(*ast.Ident)
 			if !ok {
 				break
